@@ -488,7 +488,10 @@ class SInt:
         c = self.concrete()
         if c is not None:
             return c
-        raise Unsupported("int() of symbolic int (in %s)" % sys._getframe(1).f_code.co_name)
+        f = sys._getframe(1)
+        if f.f_code.co_name in ZInt.MESSAGE_SITES:
+            return 0
+        raise Unsupported("int() of symbolic int (in %s)" % f.f_code.co_name)
 
     def __bool__(self):
         return bool(SBool(self.e != 0))
@@ -822,7 +825,7 @@ class ZInt:
         raise Unsupported("__index__ on symbolic integer (in %s)" % sys._getframe(1).f_code.co_name)
 
     # message sites: text that only feeds warn()/raise
-    MESSAGE_SITES = set()
+    MESSAGE_SITES = set(["norm_integer"])
 
     def __int__(s):
         c = s.concrete()
@@ -835,10 +838,22 @@ class ZInt:
 
     def __repr__(s):
         return "<sym>"
-    __str__ = __repr__
+
+    def __str__(s):
+        c = s.concrete()
+        if c is not None:
+            return str(c)
+        if sys._getframe(1).f_code.co_name in ZInt.MESSAGE_SITES:
+            return "<sym>"
+        raise Unsupported("str() of symbolic integer in %s" % sys._getframe(1).f_code.co_name)
 
     def __format__(s, spec):
-        return "<sym>"
+        c = s.concrete()
+        if c is not None:
+            return format(c, spec)
+        if sys._getframe(1).f_code.co_name in ZInt.MESSAGE_SITES:
+            return "<sym>"
+        raise Unsupported("format() of symbolic integer in %s" % sys._getframe(1).f_code.co_name)
 
 
 def zmin(a, b):
